@@ -652,6 +652,9 @@ class TunnelCommunity(Community):
         self.logger.info("Added hop %d (%s) to circuit %d", len(circuit.hops), hop.peer, circuit.circuit_id)
 
         if circuit.state == CIRCUIT_STATE_EXTENDING:
+            # This attempt is complete: its retry cache must not fire anymore, whatever happens to the candidate list.
+            cache = self.request_cache.pop(RetryRequestCache, circuit.circuit_id)
+
             candidates_enc = payload.candidates_enc
             candidates_bin = session_keys.decrypt_str(candidates_enc, FORWARD)
             candidates, _ = self.serializer.unpack("varlenH-list", candidates_bin)
@@ -669,7 +672,6 @@ class TunnelCommunity(Community):
             # If there aren't enough relays, we'll extend to exits. We currently assume that exits also allow relaying.
             candidates = exit_candidates if become_exit else relay_candidates or exit_candidates
 
-            cache = self.request_cache.pop(RetryRequestCache, circuit.circuit_id)
             self.send_extend(circuit, cast("list[bytes]", candidates), cache.max_tries if cache else 1)
 
         elif circuit.state == CIRCUIT_STATE_READY:
